@@ -155,9 +155,11 @@ def run_scenario(chain, start, bare=False):
         return (lena.flow.get_data(res), lena.flow.get_context(res))
 
     seq = lena.core.Sequence(*objs)
-    r = list(seq.run([value_of(start, bare)]))
+    # two equal values in one flow
+    r = list(seq.run([value_of(start, bare), value_of(start, bare)]))
     out["seq_len"] = len(r)
     out["seq"] = norm(r[0]) if r else None
+    out["seq2"] = norm(r[1]) if len(r) > 1 else None
     out["compose"] = norm(comp(value_of(start, bare)))
     out["combine"] = norm(comb(value_of(start, bare)))
     # repeated application to equal values
